@@ -1,5 +1,7 @@
 \* C16 thorough: all 1x1, 2x2 and 3x3 over -2..2 (1,953,125 3x3 matrices), complex 1x1 and 2x2 over Gaussian integers with parts in -1..1.
 \* Replay: all singular matrices; nonsingular ones hash-sampled (1/SwapMod of those needing a row swap, 1/RestMod of the rest).
+\* Graded (power-of-two scaled) versions: every (matrix, scaling) pair for 1x1 and real 2x2, 1 in 32 for real 3x3 over -1..1, 1 in 8 for
+\* complex 2x2; 600 pseudo-random complex 3x3 and 200 real 4x4 matrices, unscaled and with 1 in 4 / 1 in 8 of the scalings; all replayed.
 SPECIFICATION Spec
 CONSTANTS
   RealSizes <- MC_RealSizes
@@ -17,10 +19,10 @@ CONSTANTS
   SwapMod = 32
   RestMod = 64
   GModR2 = 1
-  GModR3 = 16
-  GModC2 = 4
-  KC3 = 1500
-  GModC3 = 2
-  KR4 = 400
-  GModR4 = 4
+  GModR3 = 32
+  GModC2 = 8
+  KC3 = 600
+  GModC3 = 4
+  KR4 = 200
+  GModR4 = 8
 INVARIANTS TypeOK Contract Emit
